@@ -506,7 +506,7 @@ pub fn prop() -> DiceProp {
         nightly: false,
         check_only: false,
         ndice: 96,
-        quick: (1500, 1),
+        quick: (2500, 1),
         thorough: (4000, 5),
         build,
         fixed,
